@@ -57,6 +57,24 @@ def checkHandlersOrder (pid : String) (j : Json) : Except String Verdict := do
   if jBoolD o "hang" false then
     return { nontrivial := true, mismatch := none, specfail := some s!"C07.no_deadlock: update, lookup and handler registration did not all finish: {ev}" }
   let idx (e : String) : Option Nat := ev.findIdx? (· == e)
+  if jStrD j "kind" "" = "handler-panic" then
+    -- a handler panicked inside an update: every lock section that was entered is left again (model: sections are atomic
+    -- steps; nothing stays locked), so a cached name is served and a missing one ends at its deadline
+    let cached := jStrD o "cached" "?"
+    let missing := jStrD o "missing" "?"
+    let ok := cached.startsWith "val:" && missing = "err:timeout"
+    return { nontrivial := true
+             mismatch := if ok then none else some s!"handler panic: model: cached lookup served, missing lookup times out; impl: cached={cached}, missing={missing}"
+             specfail := if ok then none else some s!"C07.deadlock_free: after a registered update handler panicked inside an update (the receive loop recovered), a lookup of the CACHED {jStrD j "rt" ""} resource returned '{cached}' and a lookup of a missing one '{missing}': the manager lock was never given back" }
+  if jStrD j "kind" "" = "cb-policy" then
+    -- the suite's own circuit-breaker handler: at every exposure the configuration of that update is in force
+    -- (model: handlers run inside the update's lock section, before the cache write and the wake-up - `handlersFirst`)
+    let rounds := jNatD o "rounds" 0
+    let ok := jNatD o "inForce" 0 = rounds
+    let notes := (jStrList o "notes").toOption.getD []
+    return { nontrivial := rounds > 0
+             mismatch := if ok then none else some s!"breaker policy before data: model: in force at all {rounds} exposures; impl: at {jNatD o "inForce" 0} ({notes})"
+             specfail := if ok then none else some s!"C07.policy_before_data: with the suite's own circuit-breaker handler registered, a lookup exposed a cluster before the breaker configuration derived from the update that delivered it was in force ({jNatD o "stale" 0} of {rounds} exposures): {notes}" }
   if jStrD j "kind" "" = "lock-stress" then
     -- a large response handled while the interest set of its type keeps changing: both sides finish (model: every lock
     -- section is entered once and left, `lock_edges_ranked`)
